@@ -372,11 +372,34 @@ func (H) Execute(scAny any, cfg simrt.Config, st *core.Stats) (*simrt.Outcome, *
 		if !sc.Lazy && !checkOperands("after-build") {
 			return
 		}
+		type keptResult struct {
+			res   sets.Set[int]
+			want  model
+			where string
+		}
+		var kept []keptResult
+		keep := false
+		checkKept := func() bool {
+			for _, k := range kept {
+				if d := verify(k.res, k.want, sc.U); d != "" {
+					fail(k.where+"/after-later-calls", "result-"+d)
+					return false
+				}
+			}
+			return true
+		}
 		// result must equal want, and be detached from the operands
 		checkResult := func(where string, res sets.Set[int], want model) bool {
 			if d := verify(res, want, sc.U); d != "" {
 				fail(where, "result-"+d)
 				return false
+			}
+			if keep {
+				// left unwritten and read again after later calls have changed the
+				// operands: a copy that is only made when the result is written
+				// still shares with them until then
+				kept = append(kept, keptResult{res, want.clone(), where})
+				return true
 			}
 			res.Add(777)
 			for _, x := range want.sorted() {
@@ -387,8 +410,9 @@ func (H) Execute(scAny any, cfg simrt.Config, st *core.Stats) (*simrt.Outcome, *
 			}
 			return checkOperands(where + "/after-mutating-result")
 		}
-		for _, c := range sc.Calls {
+		for ci, c := range sc.Calls {
 			simrt.Yield()
+			keep = ci%2 == 1 && len(kept) < 8
 			h = core.HashInts(h, int(c.K[0])+256*int(c.K[len(c.K)-1]), c.Recv, c.Arg, c.V, len(c.Vals))
 			a, b := ops[c.Recv], ops[c.Arg]
 			ma, mb := ms[c.Recv], ms[c.Arg]
@@ -557,8 +581,17 @@ func (H) Execute(scAny any, cfg simrt.Config, st *core.Stats) (*simrt.Outcome, *
 			if !sc.Lazy && !checkOperands(where) {
 				return
 			}
+			switch c.K {
+			case "add", "remove", "addset", "removeset":
+				if !checkKept() {
+					return
+				}
+			}
 		}
 		if sc.Lazy && !checkOperands("at-the-end") {
+			return
+		}
+		if !checkKept() {
 			return
 		}
 	}
